@@ -10,7 +10,7 @@ from .. import core, gen
 from ..core import CLOCK, from_loc, tz_of
 
 ID = "C20"
-BUDGET = {"quick": 200, "thorough": 20000}
+BUDGET = {"quick": 800, "thorough": 100000}
 RULE = ("scenario = one scheduler (threading or asyncio; no timezone or a fixed offset with a short or a 40-character name) with 0-12 "
         "jobs (quick; up to 30 thorough) whose callables are a function, lambda, builtin, bound method, functools.partial, callable "
         "instance or class, with aliases of any length/content (empty, long, non-ASCII, control characters incl. newline), weights "
@@ -145,6 +145,8 @@ def _observe(scn, sched, pairs, aio):
             obs["jobstr_err"] = f"str(job) [{spec['kind']}]: {type(e).__name__}: {e}"
     # expected cells from what job._str() delivers (sorted by due instant)
     try:
+        insts = [core.inst_of(p[0].datetime) for p in pairs]
+        obs["ties"] = len(set(insts)) < len(insts)
         for job, spec in sorted(pairs, key=lambda p: core.inst_of(p[0].datetime)):
             r = job._str()
             obs["rows"].append({"cells": [r[0], r[1] + r[2], r[3], r[4] or "", r[5], f"{r[6]}/{r[7]}"] + ([] if aio else [f"{job.weight}"])})
@@ -237,6 +239,12 @@ def runner(scn):
             impl.append(("W " + " ".join(str(ord(c)) for c in chunk)).strip())
         else:
             impl.append("W <table missing or malformed>")
+    if obs.get("ties"):
+        # equal due instants: the order of those rows is the set's iteration order - compare as a multiset
+        order = sorted(range(1, len(lines)), key=lambda i: lines[i])
+        model_rows = core.run_driver([lines[i] for i in order]) if len(lines) > 1 else []
+        lines = [lines[0]] + [l for _, l in sorted(zip(model_rows, [lines[i] for i in order]))]
+        impl = [impl[0]] + sorted(impl[1:])
     return lines, impl, [obs]
 
 
